@@ -9,6 +9,11 @@ type nat =
 | O
 | S of nat
 
+(** val fst : ('a1 * 'a2) -> 'a1 **)
+
+let fst = function
+| (x, _) -> x
+
 (** val snd : ('a1 * 'a2) -> 'a2 **)
 
 let snd = function
@@ -31,6 +36,13 @@ type comparison =
 | Eq
 | Lt
 | Gt
+
+(** val compOpp : comparison -> comparison **)
+
+let compOpp = function
+| Eq -> Eq
+| Lt -> Gt
+| Gt -> Lt
 
 module Coq__1 = struct
  (** val add : nat -> nat -> nat **)
@@ -69,6 +81,11 @@ type positive =
 type n =
 | N0
 | Npos of positive
+
+type z =
+| Z0
+| Zpos of positive
+| Zneg of positive
 
 module Pos =
  struct
@@ -337,6 +354,12 @@ module N =
   | N0 -> N0
   | Npos p -> Npos (XO p)
 
+  (** val succ : n -> n **)
+
+  let succ = function
+  | N0 -> Npos XH
+  | Npos p -> Npos (Coq_Pos.succ p)
+
   (** val add : n -> n -> n **)
 
   let add n0 m =
@@ -456,6 +479,11 @@ module N =
                   | N0 -> (N0, a)
                   | Npos _ -> pos_div_eucl na b)
 
+  (** val div : n -> n -> n **)
+
+  let div a b =
+    fst (div_eucl a b)
+
   (** val modulo : n -> n -> n **)
 
   let modulo a b =
@@ -521,6 +549,19 @@ let rec concat = function
 | [] -> []
 | x :: l0 -> app x (concat l0)
 
+(** val map : ('a1 -> 'a2) -> 'a1 list -> 'a2 list **)
+
+let rec map f = function
+| [] -> []
+| a :: t -> (f a) :: (map f t)
+
+(** val fold_left : ('a1 -> 'a2 -> 'a1) -> 'a2 list -> 'a1 -> 'a1 **)
+
+let rec fold_left f l a0 =
+  match l with
+  | [] -> a0
+  | b :: t -> fold_left f t (f a0 b)
+
 (** val firstn : nat -> 'a1 list -> 'a1 list **)
 
 let rec firstn n0 l =
@@ -544,6 +585,157 @@ let rec skipn n0 l =
 let rec repeat x = function
 | O -> []
 | S k -> x :: (repeat x k)
+
+module Z =
+ struct
+  (** val double : z -> z **)
+
+  let double = function
+  | Z0 -> Z0
+  | Zpos p -> Zpos (XO p)
+  | Zneg p -> Zneg (XO p)
+
+  (** val succ_double : z -> z **)
+
+  let succ_double = function
+  | Z0 -> Zpos XH
+  | Zpos p -> Zpos (XI p)
+  | Zneg p -> Zneg (Coq_Pos.pred_double p)
+
+  (** val pred_double : z -> z **)
+
+  let pred_double = function
+  | Z0 -> Zneg XH
+  | Zpos p -> Zpos (Coq_Pos.pred_double p)
+  | Zneg p -> Zneg (XI p)
+
+  (** val pos_sub : positive -> positive -> z **)
+
+  let rec pos_sub x y =
+    match x with
+    | XI p ->
+      (match y with
+       | XI q -> double (pos_sub p q)
+       | XO q -> succ_double (pos_sub p q)
+       | XH -> Zpos (XO p))
+    | XO p ->
+      (match y with
+       | XI q -> pred_double (pos_sub p q)
+       | XO q -> double (pos_sub p q)
+       | XH -> Zpos (Coq_Pos.pred_double p))
+    | XH ->
+      (match y with
+       | XI q -> Zneg (XO q)
+       | XO q -> Zneg (Coq_Pos.pred_double q)
+       | XH -> Z0)
+
+  (** val add : z -> z -> z **)
+
+  let add x y =
+    match x with
+    | Z0 -> y
+    | Zpos x' ->
+      (match y with
+       | Z0 -> x
+       | Zpos y' -> Zpos (Coq_Pos.add x' y')
+       | Zneg y' -> pos_sub x' y')
+    | Zneg x' ->
+      (match y with
+       | Z0 -> x
+       | Zpos y' -> pos_sub y' x'
+       | Zneg y' -> Zneg (Coq_Pos.add x' y'))
+
+  (** val opp : z -> z **)
+
+  let opp = function
+  | Z0 -> Z0
+  | Zpos x0 -> Zneg x0
+  | Zneg x0 -> Zpos x0
+
+  (** val sub : z -> z -> z **)
+
+  let sub m n0 =
+    add m (opp n0)
+
+  (** val mul : z -> z -> z **)
+
+  let mul x y =
+    match x with
+    | Z0 -> Z0
+    | Zpos x' ->
+      (match y with
+       | Z0 -> Z0
+       | Zpos y' -> Zpos (Coq_Pos.mul x' y')
+       | Zneg y' -> Zneg (Coq_Pos.mul x' y'))
+    | Zneg x' ->
+      (match y with
+       | Z0 -> Z0
+       | Zpos y' -> Zneg (Coq_Pos.mul x' y')
+       | Zneg y' -> Zpos (Coq_Pos.mul x' y'))
+
+  (** val compare : z -> z -> comparison **)
+
+  let compare x y =
+    match x with
+    | Z0 -> (match y with
+             | Z0 -> Eq
+             | Zpos _ -> Lt
+             | Zneg _ -> Gt)
+    | Zpos x' -> (match y with
+                  | Zpos y' -> Coq_Pos.compare x' y'
+                  | _ -> Gt)
+    | Zneg x' ->
+      (match y with
+       | Zneg y' -> compOpp (Coq_Pos.compare x' y')
+       | _ -> Lt)
+
+  (** val leb : z -> z -> bool **)
+
+  let leb x y =
+    match compare x y with
+    | Gt -> false
+    | _ -> true
+
+  (** val ltb : z -> z -> bool **)
+
+  let ltb x y =
+    match compare x y with
+    | Lt -> true
+    | _ -> false
+
+  (** val eqb : z -> z -> bool **)
+
+  let eqb x y =
+    match x with
+    | Z0 -> (match y with
+             | Z0 -> true
+             | _ -> false)
+    | Zpos p -> (match y with
+                 | Zpos q -> Coq_Pos.eqb p q
+                 | _ -> false)
+    | Zneg p -> (match y with
+                 | Zneg q -> Coq_Pos.eqb p q
+                 | _ -> false)
+
+  (** val min : z -> z -> z **)
+
+  let min n0 m =
+    match compare n0 m with
+    | Gt -> m
+    | _ -> n0
+
+  (** val to_N : z -> n **)
+
+  let to_N = function
+  | Zpos p -> Npos p
+  | _ -> N0
+
+  (** val of_N : n -> z **)
+
+  let of_N = function
+  | N0 -> Z0
+  | Npos p -> Zpos p
+ end
 
 type state =
 | Anywhere
@@ -4134,3 +4326,928 @@ let rec strip_str_chunks chunks st =
         | Some p1 -> let (pss, st'') = p1 in Some ((ps :: pss), st'')
         | None -> None)
      | None -> None)
+
+(** val xterm_colors : ((n * n) * n) list **)
+
+let xterm_colors =
+  ((N0, N0), N0) :: (((N0, N0), N0) :: (((N0, N0), N0) :: (((N0, N0),
+    N0) :: (((N0, N0), N0) :: (((N0, N0), N0) :: (((N0, N0), N0) :: (((N0,
+    N0), N0) :: (((N0, N0), N0) :: (((N0, N0), N0) :: (((N0, N0),
+    N0) :: (((N0, N0), N0) :: (((N0, N0), N0) :: (((N0, N0), N0) :: (((N0,
+    N0), N0) :: (((N0, N0), N0) :: (((N0, N0), N0) :: (((N0, N0), (Npos (XI
+    (XI (XI (XI (XI (XO XH)))))))) :: (((N0, N0), (Npos (XI (XI (XI (XO (XO
+    (XO (XO XH))))))))) :: (((N0, N0), (Npos (XI (XI (XI (XI (XO (XI (XO
+    XH))))))))) :: (((N0, N0), (Npos (XI (XI (XI (XO (XI (XO (XI
+    XH))))))))) :: (((N0, N0), (Npos (XI (XI (XI (XI (XI (XI (XI
+    XH))))))))) :: (((N0, (Npos (XI (XI (XI (XI (XI (XO XH)))))))),
+    N0) :: (((N0, (Npos (XI (XI (XI (XI (XI (XO XH)))))))), (Npos (XI (XI (XI
+    (XI (XI (XO XH)))))))) :: (((N0, (Npos (XI (XI (XI (XI (XI (XO
+    XH)))))))), (Npos (XI (XI (XI (XO (XO (XO (XO XH))))))))) :: (((N0, (Npos
+    (XI (XI (XI (XI (XI (XO XH)))))))), (Npos (XI (XI (XI (XI (XO (XI (XO
+    XH))))))))) :: (((N0, (Npos (XI (XI (XI (XI (XI (XO XH)))))))), (Npos (XI
+    (XI (XI (XO (XI (XO (XI XH))))))))) :: (((N0, (Npos (XI (XI (XI (XI (XI
+    (XO XH)))))))), (Npos (XI (XI (XI (XI (XI (XI (XI XH))))))))) :: (((N0,
+    (Npos (XI (XI (XI (XO (XO (XO (XO XH))))))))), N0) :: (((N0, (Npos (XI
+    (XI (XI (XO (XO (XO (XO XH))))))))), (Npos (XI (XI (XI (XI (XI (XO
+    XH)))))))) :: (((N0, (Npos (XI (XI (XI (XO (XO (XO (XO XH))))))))), (Npos
+    (XI (XI (XI (XO (XO (XO (XO XH))))))))) :: (((N0, (Npos (XI (XI (XI (XO
+    (XO (XO (XO XH))))))))), (Npos (XI (XI (XI (XI (XO (XI (XO
+    XH))))))))) :: (((N0, (Npos (XI (XI (XI (XO (XO (XO (XO XH))))))))),
+    (Npos (XI (XI (XI (XO (XI (XO (XI XH))))))))) :: (((N0, (Npos (XI (XI (XI
+    (XO (XO (XO (XO XH))))))))), (Npos (XI (XI (XI (XI (XI (XI (XI
+    XH))))))))) :: (((N0, (Npos (XI (XI (XI (XI (XO (XI (XO XH))))))))),
+    N0) :: (((N0, (Npos (XI (XI (XI (XI (XO (XI (XO XH))))))))), (Npos (XI
+    (XI (XI (XI (XI (XO XH)))))))) :: (((N0, (Npos (XI (XI (XI (XI (XO (XI
+    (XO XH))))))))), (Npos (XI (XI (XI (XO (XO (XO (XO XH))))))))) :: (((N0,
+    (Npos (XI (XI (XI (XI (XO (XI (XO XH))))))))), (Npos (XI (XI (XI (XI (XO
+    (XI (XO XH))))))))) :: (((N0, (Npos (XI (XI (XI (XI (XO (XI (XO
+    XH))))))))), (Npos (XI (XI (XI (XO (XI (XO (XI XH))))))))) :: (((N0,
+    (Npos (XI (XI (XI (XI (XO (XI (XO XH))))))))), (Npos (XI (XI (XI (XI (XI
+    (XI (XI XH))))))))) :: (((N0, (Npos (XI (XI (XI (XO (XI (XO (XI
+    XH))))))))), N0) :: (((N0, (Npos (XI (XI (XI (XO (XI (XO (XI XH))))))))),
+    (Npos (XI (XI (XI (XI (XI (XO XH)))))))) :: (((N0, (Npos (XI (XI (XI (XO
+    (XI (XO (XI XH))))))))), (Npos (XI (XI (XI (XO (XO (XO (XO
+    XH))))))))) :: (((N0, (Npos (XI (XI (XI (XO (XI (XO (XI XH))))))))),
+    (Npos (XI (XI (XI (XI (XO (XI (XO XH))))))))) :: (((N0, (Npos (XI (XI (XI
+    (XO (XI (XO (XI XH))))))))), (Npos (XI (XI (XI (XO (XI (XO (XI
+    XH))))))))) :: (((N0, (Npos (XI (XI (XI (XO (XI (XO (XI XH))))))))),
+    (Npos (XI (XI (XI (XI (XI (XI (XI XH))))))))) :: (((N0, (Npos (XI (XI (XI
+    (XI (XI (XI (XI XH))))))))), N0) :: (((N0, (Npos (XI (XI (XI (XI (XI (XI
+    (XI XH))))))))), (Npos (XI (XI (XI (XI (XI (XO XH)))))))) :: (((N0, (Npos
+    (XI (XI (XI (XI (XI (XI (XI XH))))))))), (Npos (XI (XI (XI (XO (XO (XO
+    (XO XH))))))))) :: (((N0, (Npos (XI (XI (XI (XI (XI (XI (XI XH))))))))),
+    (Npos (XI (XI (XI (XI (XO (XI (XO XH))))))))) :: (((N0, (Npos (XI (XI (XI
+    (XI (XI (XI (XI XH))))))))), (Npos (XI (XI (XI (XO (XI (XO (XI
+    XH))))))))) :: (((N0, (Npos (XI (XI (XI (XI (XI (XI (XI XH))))))))),
+    (Npos (XI (XI (XI (XI (XI (XI (XI XH))))))))) :: ((((Npos (XI (XI (XI (XI
+    (XI (XO XH))))))), N0), N0) :: ((((Npos (XI (XI (XI (XI (XI (XO
+    XH))))))), N0), (Npos (XI (XI (XI (XI (XI (XO XH)))))))) :: ((((Npos (XI
+    (XI (XI (XI (XI (XO XH))))))), N0), (Npos (XI (XI (XI (XO (XO (XO (XO
+    XH))))))))) :: ((((Npos (XI (XI (XI (XI (XI (XO XH))))))), N0), (Npos (XI
+    (XI (XI (XI (XO (XI (XO XH))))))))) :: ((((Npos (XI (XI (XI (XI (XI (XO
+    XH))))))), N0), (Npos (XI (XI (XI (XO (XI (XO (XI XH))))))))) :: ((((Npos
+    (XI (XI (XI (XI (XI (XO XH))))))), N0), (Npos (XI (XI (XI (XI (XI (XI (XI
+    XH))))))))) :: ((((Npos (XI (XI (XI (XI (XI (XO XH))))))), (Npos (XI (XI
+    (XI (XI (XI (XO XH)))))))), N0) :: ((((Npos (XI (XI (XI (XI (XI (XO
+    XH))))))), (Npos (XI (XI (XI (XI (XI (XO XH)))))))), (Npos (XI (XI (XI
+    (XI (XI (XO XH)))))))) :: ((((Npos (XI (XI (XI (XI (XI (XO XH))))))),
+    (Npos (XI (XI (XI (XI (XI (XO XH)))))))), (Npos (XI (XI (XI (XO (XO (XO
+    (XO XH))))))))) :: ((((Npos (XI (XI (XI (XI (XI (XO XH))))))), (Npos (XI
+    (XI (XI (XI (XI (XO XH)))))))), (Npos (XI (XI (XI (XI (XO (XI (XO
+    XH))))))))) :: ((((Npos (XI (XI (XI (XI (XI (XO XH))))))), (Npos (XI (XI
+    (XI (XI (XI (XO XH)))))))), (Npos (XI (XI (XI (XO (XI (XO (XI
+    XH))))))))) :: ((((Npos (XI (XI (XI (XI (XI (XO XH))))))), (Npos (XI (XI
+    (XI (XI (XI (XO XH)))))))), (Npos (XI (XI (XI (XI (XI (XI (XI
+    XH))))))))) :: ((((Npos (XI (XI (XI (XI (XI (XO XH))))))), (Npos (XI (XI
+    (XI (XO (XO (XO (XO XH))))))))), N0) :: ((((Npos (XI (XI (XI (XI (XI (XO
+    XH))))))), (Npos (XI (XI (XI (XO (XO (XO (XO XH))))))))), (Npos (XI (XI
+    (XI (XI (XI (XO XH)))))))) :: ((((Npos (XI (XI (XI (XI (XI (XO XH))))))),
+    (Npos (XI (XI (XI (XO (XO (XO (XO XH))))))))), (Npos (XI (XI (XI (XO (XO
+    (XO (XO XH))))))))) :: ((((Npos (XI (XI (XI (XI (XI (XO XH))))))), (Npos
+    (XI (XI (XI (XO (XO (XO (XO XH))))))))), (Npos (XI (XI (XI (XI (XO (XI
+    (XO XH))))))))) :: ((((Npos (XI (XI (XI (XI (XI (XO XH))))))), (Npos (XI
+    (XI (XI (XO (XO (XO (XO XH))))))))), (Npos (XI (XI (XI (XO (XI (XO (XI
+    XH))))))))) :: ((((Npos (XI (XI (XI (XI (XI (XO XH))))))), (Npos (XI (XI
+    (XI (XO (XO (XO (XO XH))))))))), (Npos (XI (XI (XI (XI (XI (XI (XI
+    XH))))))))) :: ((((Npos (XI (XI (XI (XI (XI (XO XH))))))), (Npos (XI (XI
+    (XI (XI (XO (XI (XO XH))))))))), N0) :: ((((Npos (XI (XI (XI (XI (XI (XO
+    XH))))))), (Npos (XI (XI (XI (XI (XO (XI (XO XH))))))))), (Npos (XI (XI
+    (XI (XI (XI (XO XH)))))))) :: ((((Npos (XI (XI (XI (XI (XI (XO XH))))))),
+    (Npos (XI (XI (XI (XI (XO (XI (XO XH))))))))), (Npos (XI (XI (XI (XO (XO
+    (XO (XO XH))))))))) :: ((((Npos (XI (XI (XI (XI (XI (XO XH))))))), (Npos
+    (XI (XI (XI (XI (XO (XI (XO XH))))))))), (Npos (XI (XI (XI (XI (XO (XI
+    (XO XH))))))))) :: ((((Npos (XI (XI (XI (XI (XI (XO XH))))))), (Npos (XI
+    (XI (XI (XI (XO (XI (XO XH))))))))), (Npos (XI (XI (XI (XO (XI (XO (XI
+    XH))))))))) :: ((((Npos (XI (XI (XI (XI (XI (XO XH))))))), (Npos (XI (XI
+    (XI (XI (XO (XI (XO XH))))))))), (Npos (XI (XI (XI (XI (XI (XI (XI
+    XH))))))))) :: ((((Npos (XI (XI (XI (XI (XI (XO XH))))))), (Npos (XI (XI
+    (XI (XO (XI (XO (XI XH))))))))), N0) :: ((((Npos (XI (XI (XI (XI (XI (XO
+    XH))))))), (Npos (XI (XI (XI (XO (XI (XO (XI XH))))))))), (Npos (XI (XI
+    (XI (XI (XI (XO XH)))))))) :: ((((Npos (XI (XI (XI (XI (XI (XO XH))))))),
+    (Npos (XI (XI (XI (XO (XI (XO (XI XH))))))))), (Npos (XI (XI (XI (XO (XO
+    (XO (XO XH))))))))) :: ((((Npos (XI (XI (XI (XI (XI (XO XH))))))), (Npos
+    (XI (XI (XI (XO (XI (XO (XI XH))))))))), (Npos (XI (XI (XI (XI (XO (XI
+    (XO XH))))))))) :: ((((Npos (XI (XI (XI (XI (XI (XO XH))))))), (Npos (XI
+    (XI (XI (XO (XI (XO (XI XH))))))))), (Npos (XI (XI (XI (XO (XI (XO (XI
+    XH))))))))) :: ((((Npos (XI (XI (XI (XI (XI (XO XH))))))), (Npos (XI (XI
+    (XI (XO (XI (XO (XI XH))))))))), (Npos (XI (XI (XI (XI (XI (XI (XI
+    XH))))))))) :: ((((Npos (XI (XI (XI (XI (XI (XO XH))))))), (Npos (XI (XI
+    (XI (XI (XI (XI (XI XH))))))))), N0) :: ((((Npos (XI (XI (XI (XI (XI (XO
+    XH))))))), (Npos (XI (XI (XI (XI (XI (XI (XI XH))))))))), (Npos (XI (XI
+    (XI (XI (XI (XO XH)))))))) :: ((((Npos (XI (XI (XI (XI (XI (XO XH))))))),
+    (Npos (XI (XI (XI (XI (XI (XI (XI XH))))))))), (Npos (XI (XI (XI (XO (XO
+    (XO (XO XH))))))))) :: ((((Npos (XI (XI (XI (XI (XI (XO XH))))))), (Npos
+    (XI (XI (XI (XI (XI (XI (XI XH))))))))), (Npos (XI (XI (XI (XI (XO (XI
+    (XO XH))))))))) :: ((((Npos (XI (XI (XI (XI (XI (XO XH))))))), (Npos (XI
+    (XI (XI (XI (XI (XI (XI XH))))))))), (Npos (XI (XI (XI (XO (XI (XO (XI
+    XH))))))))) :: ((((Npos (XI (XI (XI (XI (XI (XO XH))))))), (Npos (XI (XI
+    (XI (XI (XI (XI (XI XH))))))))), (Npos (XI (XI (XI (XI (XI (XI (XI
+    XH))))))))) :: ((((Npos (XI (XI (XI (XO (XO (XO (XO XH)))))))), N0),
+    N0) :: ((((Npos (XI (XI (XI (XO (XO (XO (XO XH)))))))), N0), (Npos (XI
+    (XI (XI (XI (XI (XO XH)))))))) :: ((((Npos (XI (XI (XI (XO (XO (XO (XO
+    XH)))))))), N0), (Npos (XI (XI (XI (XO (XO (XO (XO
+    XH))))))))) :: ((((Npos (XI (XI (XI (XO (XO (XO (XO XH)))))))), N0),
+    (Npos (XI (XI (XI (XI (XO (XI (XO XH))))))))) :: ((((Npos (XI (XI (XI (XO
+    (XO (XO (XO XH)))))))), N0), (Npos (XI (XI (XI (XO (XI (XO (XI
+    XH))))))))) :: ((((Npos (XI (XI (XI (XO (XO (XO (XO XH)))))))), N0),
+    (Npos (XI (XI (XI (XI (XI (XI (XI XH))))))))) :: ((((Npos (XI (XI (XI (XO
+    (XO (XO (XO XH)))))))), (Npos (XI (XI (XI (XI (XI (XO XH)))))))),
+    N0) :: ((((Npos (XI (XI (XI (XO (XO (XO (XO XH)))))))), (Npos (XI (XI (XI
+    (XI (XI (XO XH)))))))), (Npos (XI (XI (XI (XI (XI (XO
+    XH)))))))) :: ((((Npos (XI (XI (XI (XO (XO (XO (XO XH)))))))), (Npos (XI
+    (XI (XI (XI (XI (XO XH)))))))), (Npos (XI (XI (XI (XO (XO (XO (XO
+    XH))))))))) :: ((((Npos (XI (XI (XI (XO (XO (XO (XO XH)))))))), (Npos (XI
+    (XI (XI (XI (XI (XO XH)))))))), (Npos (XI (XI (XI (XI (XO (XI (XO
+    XH))))))))) :: ((((Npos (XI (XI (XI (XO (XO (XO (XO XH)))))))), (Npos (XI
+    (XI (XI (XI (XI (XO XH)))))))), (Npos (XI (XI (XI (XO (XI (XO (XI
+    XH))))))))) :: ((((Npos (XI (XI (XI (XO (XO (XO (XO XH)))))))), (Npos (XI
+    (XI (XI (XI (XI (XO XH)))))))), (Npos (XI (XI (XI (XI (XI (XI (XI
+    XH))))))))) :: ((((Npos (XI (XI (XI (XO (XO (XO (XO XH)))))))), (Npos (XI
+    (XI (XI (XO (XO (XO (XO XH))))))))), N0) :: ((((Npos (XI (XI (XI (XO (XO
+    (XO (XO XH)))))))), (Npos (XI (XI (XI (XO (XO (XO (XO XH))))))))), (Npos
+    (XI (XI (XI (XI (XI (XO XH)))))))) :: ((((Npos (XI (XI (XI (XO (XO (XO
+    (XO XH)))))))), (Npos (XI (XI (XI (XO (XO (XO (XO XH))))))))), (Npos (XI
+    (XI (XI (XO (XO (XO (XO XH))))))))) :: ((((Npos (XI (XI (XI (XO (XO (XO
+    (XO XH)))))))), (Npos (XI (XI (XI (XO (XO (XO (XO XH))))))))), (Npos (XI
+    (XI (XI (XI (XO (XI (XO XH))))))))) :: ((((Npos (XI (XI (XI (XO (XO (XO
+    (XO XH)))))))), (Npos (XI (XI (XI (XO (XO (XO (XO XH))))))))), (Npos (XI
+    (XI (XI (XO (XI (XO (XI XH))))))))) :: ((((Npos (XI (XI (XI (XO (XO (XO
+    (XO XH)))))))), (Npos (XI (XI (XI (XO (XO (XO (XO XH))))))))), (Npos (XI
+    (XI (XI (XI (XI (XI (XI XH))))))))) :: ((((Npos (XI (XI (XI (XO (XO (XO
+    (XO XH)))))))), (Npos (XI (XI (XI (XI (XO (XI (XO XH))))))))),
+    N0) :: ((((Npos (XI (XI (XI (XO (XO (XO (XO XH)))))))), (Npos (XI (XI (XI
+    (XI (XO (XI (XO XH))))))))), (Npos (XI (XI (XI (XI (XI (XO
+    XH)))))))) :: ((((Npos (XI (XI (XI (XO (XO (XO (XO XH)))))))), (Npos (XI
+    (XI (XI (XI (XO (XI (XO XH))))))))), (Npos (XI (XI (XI (XO (XO (XO (XO
+    XH))))))))) :: ((((Npos (XI (XI (XI (XO (XO (XO (XO XH)))))))), (Npos (XI
+    (XI (XI (XI (XO (XI (XO XH))))))))), (Npos (XI (XI (XI (XI (XO (XI (XO
+    XH))))))))) :: ((((Npos (XI (XI (XI (XO (XO (XO (XO XH)))))))), (Npos (XI
+    (XI (XI (XI (XO (XI (XO XH))))))))), (Npos (XI (XI (XI (XO (XI (XO (XI
+    XH))))))))) :: ((((Npos (XI (XI (XI (XO (XO (XO (XO XH)))))))), (Npos (XI
+    (XI (XI (XI (XO (XI (XO XH))))))))), (Npos (XI (XI (XI (XI (XI (XI (XI
+    XH))))))))) :: ((((Npos (XI (XI (XI (XO (XO (XO (XO XH)))))))), (Npos (XI
+    (XI (XI (XO (XI (XO (XI XH))))))))), N0) :: ((((Npos (XI (XI (XI (XO (XO
+    (XO (XO XH)))))))), (Npos (XI (XI (XI (XO (XI (XO (XI XH))))))))), (Npos
+    (XI (XI (XI (XI (XI (XO XH)))))))) :: ((((Npos (XI (XI (XI (XO (XO (XO
+    (XO XH)))))))), (Npos (XI (XI (XI (XO (XI (XO (XI XH))))))))), (Npos (XI
+    (XI (XI (XO (XO (XO (XO XH))))))))) :: ((((Npos (XI (XI (XI (XO (XO (XO
+    (XO XH)))))))), (Npos (XI (XI (XI (XO (XI (XO (XI XH))))))))), (Npos (XI
+    (XI (XI (XI (XO (XI (XO XH))))))))) :: ((((Npos (XI (XI (XI (XO (XO (XO
+    (XO XH)))))))), (Npos (XI (XI (XI (XO (XI (XO (XI XH))))))))), (Npos (XI
+    (XI (XI (XO (XI (XO (XI XH))))))))) :: ((((Npos (XI (XI (XI (XO (XO (XO
+    (XO XH)))))))), (Npos (XI (XI (XI (XO (XI (XO (XI XH))))))))), (Npos (XI
+    (XI (XI (XI (XI (XI (XI XH))))))))) :: ((((Npos (XI (XI (XI (XO (XO (XO
+    (XO XH)))))))), (Npos (XI (XI (XI (XI (XI (XI (XI XH))))))))),
+    N0) :: ((((Npos (XI (XI (XI (XO (XO (XO (XO XH)))))))), (Npos (XI (XI (XI
+    (XI (XI (XI (XI XH))))))))), (Npos (XI (XI (XI (XI (XI (XO
+    XH)))))))) :: ((((Npos (XI (XI (XI (XO (XO (XO (XO XH)))))))), (Npos (XI
+    (XI (XI (XI (XI (XI (XI XH))))))))), (Npos (XI (XI (XI (XO (XO (XO (XO
+    XH))))))))) :: ((((Npos (XI (XI (XI (XO (XO (XO (XO XH)))))))), (Npos (XI
+    (XI (XI (XI (XI (XI (XI XH))))))))), (Npos (XI (XI (XI (XI (XO (XI (XO
+    XH))))))))) :: ((((Npos (XI (XI (XI (XO (XO (XO (XO XH)))))))), (Npos (XI
+    (XI (XI (XI (XI (XI (XI XH))))))))), (Npos (XI (XI (XI (XO (XI (XO (XI
+    XH))))))))) :: ((((Npos (XI (XI (XI (XO (XO (XO (XO XH)))))))), (Npos (XI
+    (XI (XI (XI (XI (XI (XI XH))))))))), (Npos (XI (XI (XI (XI (XI (XI (XI
+    XH))))))))) :: ((((Npos (XI (XI (XI (XI (XO (XI (XO XH)))))))), N0),
+    N0) :: ((((Npos (XI (XI (XI (XI (XO (XI (XO XH)))))))), N0), (Npos (XI
+    (XI (XI (XI (XI (XO XH)))))))) :: ((((Npos (XI (XI (XI (XI (XO (XI (XO
+    XH)))))))), N0), (Npos (XI (XI (XI (XO (XO (XO (XO
+    XH))))))))) :: ((((Npos (XI (XI (XI (XI (XO (XI (XO XH)))))))), N0),
+    (Npos (XI (XI (XI (XI (XO (XI (XO XH))))))))) :: ((((Npos (XI (XI (XI (XI
+    (XO (XI (XO XH)))))))), N0), (Npos (XI (XI (XI (XO (XI (XO (XI
+    XH))))))))) :: ((((Npos (XI (XI (XI (XI (XO (XI (XO XH)))))))), N0),
+    (Npos (XI (XI (XI (XI (XI (XI (XI XH))))))))) :: ((((Npos (XI (XI (XI (XI
+    (XO (XI (XO XH)))))))), (Npos (XI (XI (XI (XI (XI (XO XH)))))))),
+    N0) :: ((((Npos (XI (XI (XI (XI (XO (XI (XO XH)))))))), (Npos (XI (XI (XI
+    (XI (XI (XO XH)))))))), (Npos (XI (XI (XI (XI (XI (XO
+    XH)))))))) :: ((((Npos (XI (XI (XI (XI (XO (XI (XO XH)))))))), (Npos (XI
+    (XI (XI (XI (XI (XO XH)))))))), (Npos (XI (XI (XI (XO (XO (XO (XO
+    XH))))))))) :: ((((Npos (XI (XI (XI (XI (XO (XI (XO XH)))))))), (Npos (XI
+    (XI (XI (XI (XI (XO XH)))))))), (Npos (XI (XI (XI (XI (XO (XI (XO
+    XH))))))))) :: ((((Npos (XI (XI (XI (XI (XO (XI (XO XH)))))))), (Npos (XI
+    (XI (XI (XI (XI (XO XH)))))))), (Npos (XI (XI (XI (XO (XI (XO (XI
+    XH))))))))) :: ((((Npos (XI (XI (XI (XI (XO (XI (XO XH)))))))), (Npos (XI
+    (XI (XI (XI (XI (XO XH)))))))), (Npos (XI (XI (XI (XI (XI (XI (XI
+    XH))))))))) :: ((((Npos (XI (XI (XI (XI (XO (XI (XO XH)))))))), (Npos (XI
+    (XI (XI (XO (XO (XO (XO XH))))))))), N0) :: ((((Npos (XI (XI (XI (XI (XO
+    (XI (XO XH)))))))), (Npos (XI (XI (XI (XO (XO (XO (XO XH))))))))), (Npos
+    (XI (XI (XI (XI (XI (XO XH)))))))) :: ((((Npos (XI (XI (XI (XI (XO (XI
+    (XO XH)))))))), (Npos (XI (XI (XI (XO (XO (XO (XO XH))))))))), (Npos (XI
+    (XI (XI (XO (XO (XO (XO XH))))))))) :: ((((Npos (XI (XI (XI (XI (XO (XI
+    (XO XH)))))))), (Npos (XI (XI (XI (XO (XO (XO (XO XH))))))))), (Npos (XI
+    (XI (XI (XI (XO (XI (XO XH))))))))) :: ((((Npos (XI (XI (XI (XI (XO (XI
+    (XO XH)))))))), (Npos (XI (XI (XI (XO (XO (XO (XO XH))))))))), (Npos (XI
+    (XI (XI (XO (XI (XO (XI XH))))))))) :: ((((Npos (XI (XI (XI (XI (XO (XI
+    (XO XH)))))))), (Npos (XI (XI (XI (XO (XO (XO (XO XH))))))))), (Npos (XI
+    (XI (XI (XI (XI (XI (XI XH))))))))) :: ((((Npos (XI (XI (XI (XI (XO (XI
+    (XO XH)))))))), (Npos (XI (XI (XI (XI (XO (XI (XO XH))))))))),
+    N0) :: ((((Npos (XI (XI (XI (XI (XO (XI (XO XH)))))))), (Npos (XI (XI (XI
+    (XI (XO (XI (XO XH))))))))), (Npos (XI (XI (XI (XI (XI (XO
+    XH)))))))) :: ((((Npos (XI (XI (XI (XI (XO (XI (XO XH)))))))), (Npos (XI
+    (XI (XI (XI (XO (XI (XO XH))))))))), (Npos (XI (XI (XI (XO (XO (XO (XO
+    XH))))))))) :: ((((Npos (XI (XI (XI (XI (XO (XI (XO XH)))))))), (Npos (XI
+    (XI (XI (XI (XO (XI (XO XH))))))))), (Npos (XI (XI (XI (XI (XO (XI (XO
+    XH))))))))) :: ((((Npos (XI (XI (XI (XI (XO (XI (XO XH)))))))), (Npos (XI
+    (XI (XI (XI (XO (XI (XO XH))))))))), (Npos (XI (XI (XI (XO (XI (XO (XI
+    XH))))))))) :: ((((Npos (XI (XI (XI (XI (XO (XI (XO XH)))))))), (Npos (XI
+    (XI (XI (XI (XO (XI (XO XH))))))))), (Npos (XI (XI (XI (XI (XI (XI (XI
+    XH))))))))) :: ((((Npos (XI (XI (XI (XI (XO (XI (XO XH)))))))), (Npos (XI
+    (XI (XI (XO (XI (XO (XI XH))))))))), N0) :: ((((Npos (XI (XI (XI (XI (XO
+    (XI (XO XH)))))))), (Npos (XI (XI (XI (XO (XI (XO (XI XH))))))))), (Npos
+    (XI (XI (XI (XI (XI (XO XH)))))))) :: ((((Npos (XI (XI (XI (XI (XO (XI
+    (XO XH)))))))), (Npos (XI (XI (XI (XO (XI (XO (XI XH))))))))), (Npos (XI
+    (XI (XI (XO (XO (XO (XO XH))))))))) :: ((((Npos (XI (XI (XI (XI (XO (XI
+    (XO XH)))))))), (Npos (XI (XI (XI (XO (XI (XO (XI XH))))))))), (Npos (XI
+    (XI (XI (XI (XO (XI (XO XH))))))))) :: ((((Npos (XI (XI (XI (XI (XO (XI
+    (XO XH)))))))), (Npos (XI (XI (XI (XO (XI (XO (XI XH))))))))), (Npos (XI
+    (XI (XI (XO (XI (XO (XI XH))))))))) :: ((((Npos (XI (XI (XI (XI (XO (XI
+    (XO XH)))))))), (Npos (XI (XI (XI (XO (XI (XO (XI XH))))))))), (Npos (XI
+    (XI (XI (XI (XI (XI (XI XH))))))))) :: ((((Npos (XI (XI (XI (XI (XO (XI
+    (XO XH)))))))), (Npos (XI (XI (XI (XI (XI (XI (XI XH))))))))),
+    N0) :: ((((Npos (XI (XI (XI (XI (XO (XI (XO XH)))))))), (Npos (XI (XI (XI
+    (XI (XI (XI (XI XH))))))))), (Npos (XI (XI (XI (XI (XI (XO
+    XH)))))))) :: ((((Npos (XI (XI (XI (XI (XO (XI (XO XH)))))))), (Npos (XI
+    (XI (XI (XI (XI (XI (XI XH))))))))), (Npos (XI (XI (XI (XO (XO (XO (XO
+    XH))))))))) :: ((((Npos (XI (XI (XI (XI (XO (XI (XO XH)))))))), (Npos (XI
+    (XI (XI (XI (XI (XI (XI XH))))))))), (Npos (XI (XI (XI (XI (XO (XI (XO
+    XH))))))))) :: ((((Npos (XI (XI (XI (XI (XO (XI (XO XH)))))))), (Npos (XI
+    (XI (XI (XI (XI (XI (XI XH))))))))), (Npos (XI (XI (XI (XO (XI (XO (XI
+    XH))))))))) :: ((((Npos (XI (XI (XI (XI (XO (XI (XO XH)))))))), (Npos (XI
+    (XI (XI (XI (XI (XI (XI XH))))))))), (Npos (XI (XI (XI (XI (XI (XI (XI
+    XH))))))))) :: ((((Npos (XI (XI (XI (XO (XI (XO (XI XH)))))))), N0),
+    N0) :: ((((Npos (XI (XI (XI (XO (XI (XO (XI XH)))))))), N0), (Npos (XI
+    (XI (XI (XI (XI (XO XH)))))))) :: ((((Npos (XI (XI (XI (XO (XI (XO (XI
+    XH)))))))), N0), (Npos (XI (XI (XI (XO (XO (XO (XO
+    XH))))))))) :: ((((Npos (XI (XI (XI (XO (XI (XO (XI XH)))))))), N0),
+    (Npos (XI (XI (XI (XI (XO (XI (XO XH))))))))) :: ((((Npos (XI (XI (XI (XO
+    (XI (XO (XI XH)))))))), N0), (Npos (XI (XI (XI (XO (XI (XO (XI
+    XH))))))))) :: ((((Npos (XI (XI (XI (XO (XI (XO (XI XH)))))))), N0),
+    (Npos (XI (XI (XI (XI (XI (XI (XI XH))))))))) :: ((((Npos (XI (XI (XI (XO
+    (XI (XO (XI XH)))))))), (Npos (XI (XI (XI (XI (XI (XO XH)))))))),
+    N0) :: ((((Npos (XI (XI (XI (XO (XI (XO (XI XH)))))))), (Npos (XI (XI (XI
+    (XI (XI (XO XH)))))))), (Npos (XI (XI (XI (XI (XI (XO
+    XH)))))))) :: ((((Npos (XI (XI (XI (XO (XI (XO (XI XH)))))))), (Npos (XI
+    (XI (XI (XI (XI (XO XH)))))))), (Npos (XI (XI (XI (XO (XO (XO (XO
+    XH))))))))) :: ((((Npos (XI (XI (XI (XO (XI (XO (XI XH)))))))), (Npos (XI
+    (XI (XI (XI (XI (XO XH)))))))), (Npos (XI (XI (XI (XI (XO (XI (XO
+    XH))))))))) :: ((((Npos (XI (XI (XI (XO (XI (XO (XI XH)))))))), (Npos (XI
+    (XI (XI (XI (XI (XO XH)))))))), (Npos (XI (XI (XI (XO (XI (XO (XI
+    XH))))))))) :: ((((Npos (XI (XI (XI (XO (XI (XO (XI XH)))))))), (Npos (XI
+    (XI (XI (XI (XI (XO XH)))))))), (Npos (XI (XI (XI (XI (XI (XI (XI
+    XH))))))))) :: ((((Npos (XI (XI (XI (XO (XI (XO (XI XH)))))))), (Npos (XI
+    (XI (XI (XO (XO (XO (XO XH))))))))), N0) :: ((((Npos (XI (XI (XI (XO (XI
+    (XO (XI XH)))))))), (Npos (XI (XI (XI (XO (XO (XO (XO XH))))))))), (Npos
+    (XI (XI (XI (XI (XI (XO XH)))))))) :: ((((Npos (XI (XI (XI (XO (XI (XO
+    (XI XH)))))))), (Npos (XI (XI (XI (XO (XO (XO (XO XH))))))))), (Npos (XI
+    (XI (XI (XO (XO (XO (XO XH))))))))) :: ((((Npos (XI (XI (XI (XO (XI (XO
+    (XI XH)))))))), (Npos (XI (XI (XI (XO (XO (XO (XO XH))))))))), (Npos (XI
+    (XI (XI (XI (XO (XI (XO XH))))))))) :: ((((Npos (XI (XI (XI (XO (XI (XO
+    (XI XH)))))))), (Npos (XI (XI (XI (XO (XO (XO (XO XH))))))))), (Npos (XI
+    (XI (XI (XO (XI (XO (XI XH))))))))) :: ((((Npos (XI (XI (XI (XO (XI (XO
+    (XI XH)))))))), (Npos (XI (XI (XI (XO (XO (XO (XO XH))))))))), (Npos (XI
+    (XI (XI (XI (XI (XI (XI XH))))))))) :: ((((Npos (XI (XI (XI (XO (XI (XO
+    (XI XH)))))))), (Npos (XI (XI (XI (XI (XO (XI (XO XH))))))))),
+    N0) :: ((((Npos (XI (XI (XI (XO (XI (XO (XI XH)))))))), (Npos (XI (XI (XI
+    (XI (XO (XI (XO XH))))))))), (Npos (XI (XI (XI (XI (XI (XO
+    XH)))))))) :: ((((Npos (XI (XI (XI (XO (XI (XO (XI XH)))))))), (Npos (XI
+    (XI (XI (XI (XO (XI (XO XH))))))))), (Npos (XI (XI (XI (XO (XO (XO (XO
+    XH))))))))) :: ((((Npos (XI (XI (XI (XO (XI (XO (XI XH)))))))), (Npos (XI
+    (XI (XI (XI (XO (XI (XO XH))))))))), (Npos (XI (XI (XI (XI (XO (XI (XO
+    XH))))))))) :: ((((Npos (XI (XI (XI (XO (XI (XO (XI XH)))))))), (Npos (XI
+    (XI (XI (XI (XO (XI (XO XH))))))))), (Npos (XI (XI (XI (XO (XI (XO (XI
+    XH))))))))) :: ((((Npos (XI (XI (XI (XO (XI (XO (XI XH)))))))), (Npos (XI
+    (XI (XI (XI (XO (XI (XO XH))))))))), (Npos (XI (XI (XI (XI (XI (XI (XI
+    XH))))))))) :: ((((Npos (XI (XI (XI (XO (XI (XO (XI XH)))))))), (Npos (XI
+    (XI (XI (XO (XI (XO (XI XH))))))))), N0) :: ((((Npos (XI (XI (XI (XO (XI
+    (XO (XI XH)))))))), (Npos (XI (XI (XI (XO (XI (XO (XI XH))))))))), (Npos
+    (XI (XI (XI (XI (XI (XO XH)))))))) :: ((((Npos (XI (XI (XI (XO (XI (XO
+    (XI XH)))))))), (Npos (XI (XI (XI (XO (XI (XO (XI XH))))))))), (Npos (XI
+    (XI (XI (XO (XO (XO (XO XH))))))))) :: ((((Npos (XI (XI (XI (XO (XI (XO
+    (XI XH)))))))), (Npos (XI (XI (XI (XO (XI (XO (XI XH))))))))), (Npos (XI
+    (XI (XI (XI (XO (XI (XO XH))))))))) :: ((((Npos (XI (XI (XI (XO (XI (XO
+    (XI XH)))))))), (Npos (XI (XI (XI (XO (XI (XO (XI XH))))))))), (Npos (XI
+    (XI (XI (XO (XI (XO (XI XH))))))))) :: ((((Npos (XI (XI (XI (XO (XI (XO
+    (XI XH)))))))), (Npos (XI (XI (XI (XO (XI (XO (XI XH))))))))), (Npos (XI
+    (XI (XI (XI (XI (XI (XI XH))))))))) :: ((((Npos (XI (XI (XI (XO (XI (XO
+    (XI XH)))))))), (Npos (XI (XI (XI (XI (XI (XI (XI XH))))))))),
+    N0) :: ((((Npos (XI (XI (XI (XO (XI (XO (XI XH)))))))), (Npos (XI (XI (XI
+    (XI (XI (XI (XI XH))))))))), (Npos (XI (XI (XI (XI (XI (XO
+    XH)))))))) :: ((((Npos (XI (XI (XI (XO (XI (XO (XI XH)))))))), (Npos (XI
+    (XI (XI (XI (XI (XI (XI XH))))))))), (Npos (XI (XI (XI (XO (XO (XO (XO
+    XH))))))))) :: ((((Npos (XI (XI (XI (XO (XI (XO (XI XH)))))))), (Npos (XI
+    (XI (XI (XI (XI (XI (XI XH))))))))), (Npos (XI (XI (XI (XI (XO (XI (XO
+    XH))))))))) :: ((((Npos (XI (XI (XI (XO (XI (XO (XI XH)))))))), (Npos (XI
+    (XI (XI (XI (XI (XI (XI XH))))))))), (Npos (XI (XI (XI (XO (XI (XO (XI
+    XH))))))))) :: ((((Npos (XI (XI (XI (XO (XI (XO (XI XH)))))))), (Npos (XI
+    (XI (XI (XI (XI (XI (XI XH))))))))), (Npos (XI (XI (XI (XI (XI (XI (XI
+    XH))))))))) :: ((((Npos (XI (XI (XI (XI (XI (XI (XI XH)))))))), N0),
+    N0) :: ((((Npos (XI (XI (XI (XI (XI (XI (XI XH)))))))), N0), (Npos (XI
+    (XI (XI (XI (XI (XO XH)))))))) :: ((((Npos (XI (XI (XI (XI (XI (XI (XI
+    XH)))))))), N0), (Npos (XI (XI (XI (XO (XO (XO (XO
+    XH))))))))) :: ((((Npos (XI (XI (XI (XI (XI (XI (XI XH)))))))), N0),
+    (Npos (XI (XI (XI (XI (XO (XI (XO XH))))))))) :: ((((Npos (XI (XI (XI (XI
+    (XI (XI (XI XH)))))))), N0), (Npos (XI (XI (XI (XO (XI (XO (XI
+    XH))))))))) :: ((((Npos (XI (XI (XI (XI (XI (XI (XI XH)))))))), N0),
+    (Npos (XI (XI (XI (XI (XI (XI (XI XH))))))))) :: ((((Npos (XI (XI (XI (XI
+    (XI (XI (XI XH)))))))), (Npos (XI (XI (XI (XI (XI (XO XH)))))))),
+    N0) :: ((((Npos (XI (XI (XI (XI (XI (XI (XI XH)))))))), (Npos (XI (XI (XI
+    (XI (XI (XO XH)))))))), (Npos (XI (XI (XI (XI (XI (XO
+    XH)))))))) :: ((((Npos (XI (XI (XI (XI (XI (XI (XI XH)))))))), (Npos (XI
+    (XI (XI (XI (XI (XO XH)))))))), (Npos (XI (XI (XI (XO (XO (XO (XO
+    XH))))))))) :: ((((Npos (XI (XI (XI (XI (XI (XI (XI XH)))))))), (Npos (XI
+    (XI (XI (XI (XI (XO XH)))))))), (Npos (XI (XI (XI (XI (XO (XI (XO
+    XH))))))))) :: ((((Npos (XI (XI (XI (XI (XI (XI (XI XH)))))))), (Npos (XI
+    (XI (XI (XI (XI (XO XH)))))))), (Npos (XI (XI (XI (XO (XI (XO (XI
+    XH))))))))) :: ((((Npos (XI (XI (XI (XI (XI (XI (XI XH)))))))), (Npos (XI
+    (XI (XI (XI (XI (XO XH)))))))), (Npos (XI (XI (XI (XI (XI (XI (XI
+    XH))))))))) :: ((((Npos (XI (XI (XI (XI (XI (XI (XI XH)))))))), (Npos (XI
+    (XI (XI (XO (XO (XO (XO XH))))))))), N0) :: ((((Npos (XI (XI (XI (XI (XI
+    (XI (XI XH)))))))), (Npos (XI (XI (XI (XO (XO (XO (XO XH))))))))), (Npos
+    (XI (XI (XI (XI (XI (XO XH)))))))) :: ((((Npos (XI (XI (XI (XI (XI (XI
+    (XI XH)))))))), (Npos (XI (XI (XI (XO (XO (XO (XO XH))))))))), (Npos (XI
+    (XI (XI (XO (XO (XO (XO XH))))))))) :: ((((Npos (XI (XI (XI (XI (XI (XI
+    (XI XH)))))))), (Npos (XI (XI (XI (XO (XO (XO (XO XH))))))))), (Npos (XI
+    (XI (XI (XI (XO (XI (XO XH))))))))) :: ((((Npos (XI (XI (XI (XI (XI (XI
+    (XI XH)))))))), (Npos (XI (XI (XI (XO (XO (XO (XO XH))))))))), (Npos (XI
+    (XI (XI (XO (XI (XO (XI XH))))))))) :: ((((Npos (XI (XI (XI (XI (XI (XI
+    (XI XH)))))))), (Npos (XI (XI (XI (XO (XO (XO (XO XH))))))))), (Npos (XI
+    (XI (XI (XI (XI (XI (XI XH))))))))) :: ((((Npos (XI (XI (XI (XI (XI (XI
+    (XI XH)))))))), (Npos (XI (XI (XI (XI (XO (XI (XO XH))))))))),
+    N0) :: ((((Npos (XI (XI (XI (XI (XI (XI (XI XH)))))))), (Npos (XI (XI (XI
+    (XI (XO (XI (XO XH))))))))), (Npos (XI (XI (XI (XI (XI (XO
+    XH)))))))) :: ((((Npos (XI (XI (XI (XI (XI (XI (XI XH)))))))), (Npos (XI
+    (XI (XI (XI (XO (XI (XO XH))))))))), (Npos (XI (XI (XI (XO (XO (XO (XO
+    XH))))))))) :: ((((Npos (XI (XI (XI (XI (XI (XI (XI XH)))))))), (Npos (XI
+    (XI (XI (XI (XO (XI (XO XH))))))))), (Npos (XI (XI (XI (XI (XO (XI (XO
+    XH))))))))) :: ((((Npos (XI (XI (XI (XI (XI (XI (XI XH)))))))), (Npos (XI
+    (XI (XI (XI (XO (XI (XO XH))))))))), (Npos (XI (XI (XI (XO (XI (XO (XI
+    XH))))))))) :: ((((Npos (XI (XI (XI (XI (XI (XI (XI XH)))))))), (Npos (XI
+    (XI (XI (XI (XO (XI (XO XH))))))))), (Npos (XI (XI (XI (XI (XI (XI (XI
+    XH))))))))) :: ((((Npos (XI (XI (XI (XI (XI (XI (XI XH)))))))), (Npos (XI
+    (XI (XI (XO (XI (XO (XI XH))))))))), N0) :: ((((Npos (XI (XI (XI (XI (XI
+    (XI (XI XH)))))))), (Npos (XI (XI (XI (XO (XI (XO (XI XH))))))))), (Npos
+    (XI (XI (XI (XI (XI (XO XH)))))))) :: ((((Npos (XI (XI (XI (XI (XI (XI
+    (XI XH)))))))), (Npos (XI (XI (XI (XO (XI (XO (XI XH))))))))), (Npos (XI
+    (XI (XI (XO (XO (XO (XO XH))))))))) :: ((((Npos (XI (XI (XI (XI (XI (XI
+    (XI XH)))))))), (Npos (XI (XI (XI (XO (XI (XO (XI XH))))))))), (Npos (XI
+    (XI (XI (XI (XO (XI (XO XH))))))))) :: ((((Npos (XI (XI (XI (XI (XI (XI
+    (XI XH)))))))), (Npos (XI (XI (XI (XO (XI (XO (XI XH))))))))), (Npos (XI
+    (XI (XI (XO (XI (XO (XI XH))))))))) :: ((((Npos (XI (XI (XI (XI (XI (XI
+    (XI XH)))))))), (Npos (XI (XI (XI (XO (XI (XO (XI XH))))))))), (Npos (XI
+    (XI (XI (XI (XI (XI (XI XH))))))))) :: ((((Npos (XI (XI (XI (XI (XI (XI
+    (XI XH)))))))), (Npos (XI (XI (XI (XI (XI (XI (XI XH))))))))),
+    N0) :: ((((Npos (XI (XI (XI (XI (XI (XI (XI XH)))))))), (Npos (XI (XI (XI
+    (XI (XI (XI (XI XH))))))))), (Npos (XI (XI (XI (XI (XI (XO
+    XH)))))))) :: ((((Npos (XI (XI (XI (XI (XI (XI (XI XH)))))))), (Npos (XI
+    (XI (XI (XI (XI (XI (XI XH))))))))), (Npos (XI (XI (XI (XO (XO (XO (XO
+    XH))))))))) :: ((((Npos (XI (XI (XI (XI (XI (XI (XI XH)))))))), (Npos (XI
+    (XI (XI (XI (XI (XI (XI XH))))))))), (Npos (XI (XI (XI (XI (XO (XI (XO
+    XH))))))))) :: ((((Npos (XI (XI (XI (XI (XI (XI (XI XH)))))))), (Npos (XI
+    (XI (XI (XI (XI (XI (XI XH))))))))), (Npos (XI (XI (XI (XO (XI (XO (XI
+    XH))))))))) :: ((((Npos (XI (XI (XI (XI (XI (XI (XI XH)))))))), (Npos (XI
+    (XI (XI (XI (XI (XI (XI XH))))))))), (Npos (XI (XI (XI (XI (XI (XI (XI
+    XH))))))))) :: ((((Npos (XO (XO (XO XH)))), (Npos (XO (XO (XO XH))))),
+    (Npos (XO (XO (XO XH))))) :: ((((Npos (XO (XI (XO (XO XH))))), (Npos (XO
+    (XI (XO (XO XH)))))), (Npos (XO (XI (XO (XO XH)))))) :: ((((Npos (XO (XO
+    (XI (XI XH))))), (Npos (XO (XO (XI (XI XH)))))), (Npos (XO (XO (XI (XI
+    XH)))))) :: ((((Npos (XO (XI (XI (XO (XO XH)))))), (Npos (XO (XI (XI (XO
+    (XO XH))))))), (Npos (XO (XI (XI (XO (XO XH))))))) :: ((((Npos (XO (XO
+    (XO (XO (XI XH)))))), (Npos (XO (XO (XO (XO (XI XH))))))), (Npos (XO (XO
+    (XO (XO (XI XH))))))) :: ((((Npos (XO (XI (XO (XI (XI XH)))))), (Npos (XO
+    (XI (XO (XI (XI XH))))))), (Npos (XO (XI (XO (XI (XI
+    XH))))))) :: ((((Npos (XO (XO (XI (XO (XO (XO XH))))))), (Npos (XO (XO
+    (XI (XO (XO (XO XH)))))))), (Npos (XO (XO (XI (XO (XO (XO
+    XH)))))))) :: ((((Npos (XO (XI (XI (XI (XO (XO XH))))))), (Npos (XO (XI
+    (XI (XI (XO (XO XH)))))))), (Npos (XO (XI (XI (XI (XO (XO
+    XH)))))))) :: ((((Npos (XO (XO (XO (XI (XI (XO XH))))))), (Npos (XO (XO
+    (XO (XI (XI (XO XH)))))))), (Npos (XO (XO (XO (XI (XI (XO
+    XH)))))))) :: ((((Npos (XO (XI (XO (XO (XO (XI XH))))))), (Npos (XO (XI
+    (XO (XO (XO (XI XH)))))))), (Npos (XO (XI (XO (XO (XO (XI
+    XH)))))))) :: ((((Npos (XO (XO (XI (XI (XO (XI XH))))))), (Npos (XO (XO
+    (XI (XI (XO (XI XH)))))))), (Npos (XO (XO (XI (XI (XO (XI
+    XH)))))))) :: ((((Npos (XO (XI (XI (XO (XI (XI XH))))))), (Npos (XO (XI
+    (XI (XO (XI (XI XH)))))))), (Npos (XO (XI (XI (XO (XI (XI
+    XH)))))))) :: ((((Npos (XO (XO (XO (XO (XO (XO (XO XH)))))))), (Npos (XO
+    (XO (XO (XO (XO (XO (XO XH))))))))), (Npos (XO (XO (XO (XO (XO (XO (XO
+    XH))))))))) :: ((((Npos (XO (XI (XO (XI (XO (XO (XO XH)))))))), (Npos (XO
+    (XI (XO (XI (XO (XO (XO XH))))))))), (Npos (XO (XI (XO (XI (XO (XO (XO
+    XH))))))))) :: ((((Npos (XO (XO (XI (XO (XI (XO (XO XH)))))))), (Npos (XO
+    (XO (XI (XO (XI (XO (XO XH))))))))), (Npos (XO (XO (XI (XO (XI (XO (XO
+    XH))))))))) :: ((((Npos (XO (XI (XI (XI (XI (XO (XO XH)))))))), (Npos (XO
+    (XI (XI (XI (XI (XO (XO XH))))))))), (Npos (XO (XI (XI (XI (XI (XO (XO
+    XH))))))))) :: ((((Npos (XO (XO (XO (XI (XO (XI (XO XH)))))))), (Npos (XO
+    (XO (XO (XI (XO (XI (XO XH))))))))), (Npos (XO (XO (XO (XI (XO (XI (XO
+    XH))))))))) :: ((((Npos (XO (XI (XO (XO (XI (XI (XO XH)))))))), (Npos (XO
+    (XI (XO (XO (XI (XI (XO XH))))))))), (Npos (XO (XI (XO (XO (XI (XI (XO
+    XH))))))))) :: ((((Npos (XO (XO (XI (XI (XI (XI (XO XH)))))))), (Npos (XO
+    (XO (XI (XI (XI (XI (XO XH))))))))), (Npos (XO (XO (XI (XI (XI (XI (XO
+    XH))))))))) :: ((((Npos (XO (XI (XI (XO (XO (XO (XI XH)))))))), (Npos (XO
+    (XI (XI (XO (XO (XO (XI XH))))))))), (Npos (XO (XI (XI (XO (XO (XO (XI
+    XH))))))))) :: ((((Npos (XO (XO (XO (XO (XI (XO (XI XH)))))))), (Npos (XO
+    (XO (XO (XO (XI (XO (XI XH))))))))), (Npos (XO (XO (XO (XO (XI (XO (XI
+    XH))))))))) :: ((((Npos (XO (XI (XO (XI (XI (XO (XI XH)))))))), (Npos (XO
+    (XI (XO (XI (XI (XO (XI XH))))))))), (Npos (XO (XI (XO (XI (XI (XO (XI
+    XH))))))))) :: ((((Npos (XO (XO (XI (XO (XO (XI (XI XH)))))))), (Npos (XO
+    (XO (XI (XO (XO (XI (XI XH))))))))), (Npos (XO (XO (XI (XO (XO (XI (XI
+    XH))))))))) :: ((((Npos (XO (XI (XI (XI (XO (XI (XI XH)))))))), (Npos (XO
+    (XI (XI (XI (XO (XI (XI XH))))))))), (Npos (XO (XI (XI (XI (XO (XI (XI
+    XH))))))))) :: [])))))))))))))))))))))))))))))))))))))))))))))))))))))))))))))))))))))))))))))))))))))))))))))))))))))))))))))))))))))))))))))))))))))))))))))))))))))))))))))))))))))))))))))))))))))))))))))))))))))))))))))))))))))))))))))))))))))))))))))))))))))))))))))))
+
+(** val xterm_to_ansi_arms : (n * n) list **)
+
+let xterm_to_ansi_arms =
+  (N0, N0) :: (((Npos XH), (Npos XH)) :: (((Npos (XO XH)), (Npos (XO
+    XH))) :: (((Npos (XI XH)), (Npos (XI XH))) :: (((Npos (XO (XO XH))),
+    (Npos (XO (XO XH)))) :: (((Npos (XI (XO XH))), (Npos (XI (XO
+    XH)))) :: (((Npos (XO (XI XH))), (Npos (XO (XI XH)))) :: (((Npos (XI (XI
+    XH))), (Npos (XI (XI XH)))) :: (((Npos (XO (XO (XO XH)))), (Npos (XO (XO
+    (XO XH))))) :: (((Npos (XI (XO (XO XH)))), (Npos (XI (XO (XO
+    XH))))) :: (((Npos (XO (XI (XO XH)))), (Npos (XO (XI (XO
+    XH))))) :: (((Npos (XI (XI (XO XH)))), (Npos (XI (XI (XO
+    XH))))) :: (((Npos (XO (XO (XI XH)))), (Npos (XO (XO (XI
+    XH))))) :: (((Npos (XI (XO (XI XH)))), (Npos (XI (XO (XI
+    XH))))) :: (((Npos (XO (XI (XI XH)))), (Npos (XO (XI (XI
+    XH))))) :: (((Npos (XI (XI (XI XH)))), (Npos (XI (XI (XI
+    XH))))) :: [])))))))))))))))
+
+(** val into_ansi_arms : (n * n) list **)
+
+let into_ansi_arms =
+  (N0, N0) :: (((Npos XH), (Npos XH)) :: (((Npos (XO XH)), (Npos (XO
+    XH))) :: (((Npos (XI XH)), (Npos (XI XH))) :: (((Npos (XO (XO XH))),
+    (Npos (XO (XO XH)))) :: (((Npos (XI (XO XH))), (Npos (XI (XO
+    XH)))) :: (((Npos (XO (XI XH))), (Npos (XO (XI XH)))) :: (((Npos (XI (XI
+    XH))), (Npos (XI (XI XH)))) :: (((Npos (XO (XO (XO XH)))), (Npos (XO (XO
+    (XO XH))))) :: (((Npos (XI (XO (XO XH)))), (Npos (XI (XO (XO
+    XH))))) :: (((Npos (XO (XI (XO XH)))), (Npos (XO (XI (XO
+    XH))))) :: (((Npos (XI (XI (XO XH)))), (Npos (XI (XI (XO
+    XH))))) :: (((Npos (XO (XO (XI XH)))), (Npos (XO (XO (XI
+    XH))))) :: (((Npos (XI (XO (XI XH)))), (Npos (XI (XO (XI
+    XH))))) :: (((Npos (XO (XI (XI XH)))), (Npos (XO (XI (XI
+    XH))))) :: (((Npos (XI (XI (XI XH)))), (Npos (XI (XI (XI
+    XH))))) :: [])))))))))))))))
+
+(** val from_ansi_tbl : n list **)
+
+let from_ansi_tbl =
+  N0 :: ((Npos XH) :: ((Npos (XO XH)) :: ((Npos (XI XH)) :: ((Npos (XO (XO
+    XH))) :: ((Npos (XI (XO XH))) :: ((Npos (XO (XI XH))) :: ((Npos (XI (XI
+    XH))) :: ((Npos (XO (XO (XO XH)))) :: ((Npos (XI (XO (XO XH)))) :: ((Npos
+    (XO (XI (XO XH)))) :: ((Npos (XI (XI (XO XH)))) :: ((Npos (XO (XO (XI
+    XH)))) :: ((Npos (XI (XO (XI XH)))) :: ((Npos (XO (XI (XI
+    XH)))) :: ((Npos (XI (XI (XI XH)))) :: [])))))))))))))))
+
+type rgb = (n * n) * n
+
+type color =
+| Ansi of n
+| Ansi256 of n
+| Rgb of rgb
+
+(** val redmean_distance : rgb -> rgb -> z **)
+
+let redmean_distance x y =
+  let (p, b1) = x in
+  let (r1, g1) = p in
+  let (p0, b2) = y in
+  let (r2, g2) = p0 in
+  let s = Z.add (Z.of_N r1) (Z.of_N r2) in
+  let dr = Z.sub (Z.of_N r1) (Z.of_N r2) in
+  let dg = Z.sub (Z.of_N g1) (Z.of_N g2) in
+  let db = Z.sub (Z.of_N b1) (Z.of_N b2) in
+  Z.add
+    (Z.add
+      (Z.mul
+        (Z.add (Zpos (XO (XO (XO (XO (XO (XO (XO (XO (XO (XO XH))))))))))) s)
+        (Z.mul dr dr))
+      (Z.mul (Zpos (XO (XO (XO (XO (XO (XO (XO (XO (XO (XO XH)))))))))))
+        (Z.mul dg dg)))
+    (Z.mul
+      (Z.sub (Zpos (XO (XI (XI (XI (XI (XI (XI (XI (XI (XO XH))))))))))) s)
+      (Z.mul db db))
+
+(** val list_min : z list -> z option **)
+
+let list_min = function
+| [] -> None
+| h :: t -> Some (fold_left Z.min t h)
+
+(** val first_index : z -> z list -> n -> n option **)
+
+let rec first_index m l i =
+  match l with
+  | [] -> None
+  | h :: t -> if Z.eqb h m then Some i else first_index m t (N.succ i)
+
+(** val argmin_lowest : ('a1 -> z) -> 'a1 list -> n option **)
+
+let argmin_lowest d cands =
+  let ds = map d cands in
+  (match list_min ds with
+   | Some m -> first_index m ds N0
+   | None -> None)
+
+(** val cube_level : n -> n **)
+
+let cube_level k =
+  if N.eqb k N0
+  then N0
+  else N.add (Npos (XI (XI (XI (XO (XI XH))))))
+         (N.mul (Npos (XO (XO (XO (XI (XO XH)))))) k)
+
+(** val xterm_fixed : n -> rgb **)
+
+let xterm_fixed i =
+  if N.ltb i (Npos (XO (XO (XO (XI (XO (XI (XI XH))))))))
+  then let k = N.sub i (Npos (XO (XO (XO (XO XH))))) in
+       (((cube_level (N.div k (Npos (XO (XO (XI (XO (XO XH)))))))),
+       (cube_level
+         (N.modulo (N.div k (Npos (XO (XI XH)))) (Npos (XO (XI XH)))))),
+       (cube_level (N.modulo k (Npos (XO (XI XH))))))
+  else let v =
+         N.add (Npos (XO (XO (XO XH))))
+           (N.mul (Npos (XO (XI (XO XH))))
+             (N.sub i (Npos (XO (XO (XO (XI (XO (XI (XI XH))))))))))
+       in
+       ((v, v), v)
+
+(** val n_range : n -> nat -> n list **)
+
+let rec n_range a = function
+| O -> []
+| S k -> a :: (n_range (N.add a (Npos XH)) k)
+
+(** val xterm240 : rgb list **)
+
+let xterm240 =
+  map xterm_fixed
+    (n_range (Npos (XO (XO (XO (XO XH))))) (S (S (S (S (S (S (S (S (S (S (S
+      (S (S (S (S (S (S (S (S (S (S (S (S (S (S (S (S (S (S (S (S (S (S (S (S
+      (S (S (S (S (S (S (S (S (S (S (S (S (S (S (S (S (S (S (S (S (S (S (S (S
+      (S (S (S (S (S (S (S (S (S (S (S (S (S (S (S (S (S (S (S (S (S (S (S (S
+      (S (S (S (S (S (S (S (S (S (S (S (S (S (S (S (S (S (S (S (S (S (S (S (S
+      (S (S (S (S (S (S (S (S (S (S (S (S (S (S (S (S (S (S (S (S (S (S (S (S
+      (S (S (S (S (S (S (S (S (S (S (S (S (S (S (S (S (S (S (S (S (S (S (S (S
+      (S (S (S (S (S (S (S (S (S (S (S (S (S (S (S (S (S (S (S (S (S (S (S (S
+      (S (S (S (S (S (S (S (S (S (S (S (S (S (S (S (S (S (S (S (S (S (S (S (S
+      (S (S (S (S (S (S (S (S (S (S (S (S (S (S (S (S (S (S (S (S (S (S (S (S
+      (S (S (S (S (S (S (S (S (S (S (S (S (S
+      O)))))))))))))))))))))))))))))))))))))))))))))))))))))))))))))))))))))))))))))))))))))))))))))))))))))))))))))))))))))))))))))))))))))))))))))))))))))))))))))))))))))))))))))))))))))))))))))))))))))))))))))))))))))))))))))))))))))))))))))))))
+
+(** val spec_rgb_to_ansi : rgb list -> rgb -> n option **)
+
+let spec_rgb_to_ansi p c =
+  argmin_lowest (redmean_distance c) p
+
+(** val spec_rgb_to_xterm : rgb -> n option **)
+
+let spec_rgb_to_xterm c =
+  match argmin_lowest (redmean_distance c) xterm240 with
+  | Some k -> Some (N.add (Npos (XO (XO (XO (XO XH))))) k)
+  | None -> None
+
+(** val spec_index_rgb : rgb list -> n -> rgb option **)
+
+let spec_index_rgb p i =
+  if N.ltb i (Npos (XO (XO (XO (XO XH)))))
+  then nth_error p (N.to_nat i)
+  else if N.ltb i (Npos (XO (XO (XO (XO (XO (XO (XO (XO XH)))))))))
+       then Some (xterm_fixed i)
+       else None
+
+(** val spec_to_rgb : rgb list -> color -> rgb option **)
+
+let spec_to_rgb p = function
+| Ansi a ->
+  if N.ltb a (Npos (XO (XO (XO (XO XH)))))
+  then nth_error p (N.to_nat a)
+  else None
+| Ansi256 i -> spec_index_rgb p i
+| Rgb c1 -> Some c1
+
+(** val spec_to_xterm : color -> n option **)
+
+let spec_to_xterm = function
+| Ansi a -> if N.ltb a (Npos (XO (XO (XO (XO XH))))) then Some a else None
+| Ansi256 i -> Some i
+| Rgb c1 -> spec_rgb_to_xterm c1
+
+(** val spec_to_ansi : rgb list -> color -> n option **)
+
+let spec_to_ansi p = function
+| Ansi a -> Some a
+| Ansi256 i ->
+  if N.ltb i (Npos (XO (XO (XO (XO XH)))))
+  then Some i
+  else if N.ltb i (Npos (XO (XO (XO (XO (XO (XO (XO (XO XH)))))))))
+       then spec_rgb_to_ansi p (xterm_fixed i)
+       else None
+| Rgb c1 -> spec_rgb_to_ansi p c1
+
+(** val lossy_s_rgb_to_ansi : rgb list -> rgb -> n option **)
+
+let lossy_s_rgb_to_ansi =
+  spec_rgb_to_ansi
+
+(** val lossy_s_rgb_to_xterm : rgb -> n option **)
+
+let lossy_s_rgb_to_xterm =
+  spec_rgb_to_xterm
+
+(** val lossy_s_obs_index :
+    rgb list -> n -> (rgb option * n option) * ((rgb option * n option) * n
+    option) **)
+
+let lossy_s_obs_index p i =
+  (((spec_index_rgb p i), (spec_to_ansi p (Ansi256 i))),
+    (((spec_to_rgb p (Ansi256 i)), (spec_to_xterm (Ansi256 i))),
+    (spec_to_ansi p (Ansi256 i))))
+
+(** val lossy_s_obs_ansi :
+    rgb list -> n -> ((rgb option * rgb option) * rgb option) * ((rgb
+    option * n option) * n option) **)
+
+let lossy_s_obs_ansi p a =
+  let e = spec_to_rgb p (Ansi a) in
+  (((e, e), e), (((spec_to_rgb p (Ansi a)), (spec_to_xterm (Ansi a))),
+  (spec_to_ansi p (Ansi a))))
+
+(** val lossy_s_obs_rgb :
+    rgb list -> rgb -> (rgb option * n option) * n option **)
+
+let lossy_s_obs_rgb p c =
+  (((spec_to_rgb p (Rgb c)), (spec_to_xterm (Rgb c))),
+    (spec_to_ansi p (Rgb c)))
+
+(** val i32 : z -> z option **)
+
+let i32 z0 =
+  if (&&)
+       (Z.leb (Zneg (XO (XO (XO (XO (XO (XO (XO (XO (XO (XO (XO (XO (XO (XO
+         (XO (XO (XO (XO (XO (XO (XO (XO (XO (XO (XO (XO (XO (XO (XO (XO (XO
+         XH)))))))))))))))))))))))))))))))) z0)
+       (Z.ltb z0 (Zpos (XO (XO (XO (XO (XO (XO (XO (XO (XO (XO (XO (XO (XO
+         (XO (XO (XO (XO (XO (XO (XO (XO (XO (XO (XO (XO (XO (XO (XO (XO (XO
+         (XO XH)))))))))))))))))))))))))))))))))
+  then Some z0
+  else None
+
+(** val i32_as_u32 : z -> n **)
+
+let i32_as_u32 z0 =
+  if Z.leb Z0 z0
+  then Z.to_N z0
+  else Z.to_N
+         (Z.add z0 (Zpos (XO (XO (XO (XO (XO (XO (XO (XO (XO (XO (XO (XO (XO
+           (XO (XO (XO (XO (XO (XO (XO (XO (XO (XO (XO (XO (XO (XO (XO (XO
+           (XO (XO (XO XH))))))))))))))))))))))))))))))))))
+
+(** val distance : rgb -> rgb -> n option **)
+
+let distance c1 c2 =
+  let (p, b1) = c1 in
+  let (r1, g1) = p in
+  let (p0, b2) = c2 in
+  let (r2, g2) = p0 in
+  let c1_r = Z.of_N r1 in
+  let c1_g = Z.of_N g1 in
+  let c1_b = Z.of_N b1 in
+  let c2_r = Z.of_N r2 in
+  let c2_g = Z.of_N g2 in
+  let c2_b = Z.of_N b2 in
+  (match i32 (Z.add c1_r c2_r) with
+   | Some r_sum ->
+     (match i32 (Z.sub c1_r c2_r) with
+      | Some r_delta ->
+        (match i32 (Z.sub c1_g c2_g) with
+         | Some g_delta ->
+           (match i32 (Z.sub c1_b c2_b) with
+            | Some b_delta ->
+              (match i32
+                       (Z.add (Zpos (XO (XO (XO (XO (XO (XO (XO (XO (XO (XO
+                         XH))))))))))) r_sum) with
+               | Some r0 ->
+                 (match i32 (Z.mul r0 r_delta) with
+                  | Some r1' ->
+                    (match i32 (Z.mul r1' r_delta) with
+                     | Some r ->
+                       (match i32 (Z.mul (Zpos (XO (XO XH))) g_delta) with
+                        | Some g0 ->
+                          (match i32 (Z.mul g0 g_delta) with
+                           | Some g1' ->
+                             (match i32
+                                      (Z.mul g1' (Zpos (XO (XO (XO (XO (XO
+                                        (XO (XO (XO XH)))))))))) with
+                              | Some g ->
+                                (match i32
+                                         (Z.sub (Zpos (XO (XI (XI (XI (XI (XI
+                                           (XI (XI (XI (XO XH)))))))))))
+                                           r_sum) with
+                                 | Some b0 ->
+                                   (match i32 (Z.mul b0 b_delta) with
+                                    | Some b1' ->
+                                      (match i32 (Z.mul b1' b_delta) with
+                                       | Some b ->
+                                         (match i32 (Z.add r g) with
+                                          | Some rg ->
+                                            (match i32 (Z.add rg b) with
+                                             | Some rgb' ->
+                                               Some (i32_as_u32 rgb')
+                                             | None -> None)
+                                          | None -> None)
+                                       | None -> None)
+                                    | None -> None)
+                                 | None -> None)
+                              | None -> None)
+                           | None -> None)
+                        | None -> None)
+                     | None -> None)
+                  | None -> None)
+               | None -> None)
+            | None -> None)
+         | None -> None)
+      | None -> None)
+   | None -> None)
+
+(** val scan : rgb -> rgb list -> n -> n -> n -> (n * n) option **)
+
+let rec scan c l index best_index best_distance =
+  match l with
+  | [] -> Some (best_index, best_distance)
+  | e :: t ->
+    (match distance c e with
+     | Some d ->
+       if N.ltb d best_distance
+       then scan c t (N.add index (Npos XH)) index d
+       else scan c t (N.add index (Npos XH)) best_index best_distance
+     | None -> None)
+
+(** val find_best : rgb -> rgb list -> n -> n option **)
+
+let find_best c table start =
+  match aget table start with
+  | Some e ->
+    (match distance c e with
+     | Some d0 ->
+       (match scan c (skipn (N.to_nat (N.add start (Npos XH))) table)
+                (N.add start (Npos XH)) start d0 with
+        | Some p -> let (bi, _) = p in Some bi
+        | None -> None)
+     | None -> None)
+  | None -> None
+
+(** val assoc : n -> (n * n) list -> n option **)
+
+let rec assoc k = function
+| [] -> None
+| p :: t -> let (k', v) = p in if N.eqb k k' then Some v else assoc k t
+
+(** val into_ansi : n -> n option **)
+
+let into_ansi i =
+  assoc i into_ansi_arms
+
+(** val from_ansi : n -> n option **)
+
+let from_ansi a =
+  aget from_ansi_tbl a
+
+(** val get_ansi256_ref : rgb list -> n -> rgb option **)
+
+let get_ansi256_ref =
+  aget
+
+(** val palette_get : rgb list -> n -> rgb option **)
+
+let palette_get p a =
+  match from_ansi a with
+  | Some i -> get_ansi256_ref p i
+  | None -> None
+
+(** val palette_index : rgb list -> n -> rgb option **)
+
+let palette_index p a =
+  match from_ansi a with
+  | Some i -> get_ansi256_ref p i
+  | None -> None
+
+(** val rgb_from_ansi : rgb list -> n -> rgb option **)
+
+let rgb_from_ansi =
+  palette_get
+
+(** val rgb_from_index : rgb list -> n -> rgb option option **)
+
+let rgb_from_index p i =
+  if N.ltb i (N.of_nat (length p))
+  then (match aget p i with
+        | Some e -> Some (Some e)
+        | None -> None)
+  else Some None
+
+(** val find_match : rgb list -> rgb -> n option **)
+
+let find_match p c =
+  match find_best c p N0 with
+  | Some bi ->
+    into_ansi (N.modulo bi (Npos (XO (XO (XO (XO (XO (XO (XO (XO XH))))))))))
+  | None -> None
+
+(** val find_xterm_match : rgb -> n option **)
+
+let find_xterm_match c =
+  find_best c xterm_colors (Npos (XO (XO (XO (XO XH)))))
+
+(** val rgb_to_xterm : rgb -> n option **)
+
+let rgb_to_xterm c =
+  match find_xterm_match c with
+  | Some index ->
+    Some (N.modulo index (Npos (XO (XO (XO (XO (XO (XO (XO (XO XH))))))))))
+  | None -> None
+
+(** val rgb_to_ansi : rgb -> rgb list -> n option **)
+
+let rgb_to_ansi c p =
+  find_match p c
+
+(** val ansi_to_rgb : n -> rgb list -> rgb option **)
+
+let ansi_to_rgb a p =
+  rgb_from_ansi p a
+
+(** val xterm_to_rgb : n -> rgb list -> rgb option **)
+
+let xterm_to_rgb i p =
+  match rgb_from_index p i with
+  | Some o -> (match o with
+               | Some c -> Some c
+               | None -> aget xterm_colors i)
+  | None -> None
+
+(** val xterm_to_ansi : n -> rgb list -> n option **)
+
+let xterm_to_ansi i p =
+  match assoc i xterm_to_ansi_arms with
+  | Some a -> Some a
+  | None ->
+    (match aget xterm_colors i with
+     | Some c -> find_match p c
+     | None -> None)
+
+(** val color_to_rgb : color -> rgb list -> rgb option **)
+
+let color_to_rgb c p =
+  match c with
+  | Ansi a -> ansi_to_rgb a p
+  | Ansi256 i -> xterm_to_rgb i p
+  | Rgb c1 -> Some c1
+
+(** val color_to_xterm : color -> n option **)
+
+let color_to_xterm = function
+| Ansi a -> from_ansi a
+| Ansi256 i -> Some i
+| Rgb c1 -> rgb_to_xterm c1
+
+(** val color_to_ansi : color -> rgb list -> n option **)
+
+let color_to_ansi c p =
+  match c with
+  | Ansi a -> Some a
+  | Ansi256 i -> xterm_to_ansi i p
+  | Rgb c1 -> rgb_to_ansi c1 p
+
+(** val lossy_m_rgb_to_ansi : rgb list -> rgb -> n option **)
+
+let lossy_m_rgb_to_ansi p c =
+  rgb_to_ansi c p
+
+(** val lossy_m_rgb_to_xterm : rgb -> n option **)
+
+let lossy_m_rgb_to_xterm =
+  rgb_to_xterm
+
+(** val lossy_m_obs_index :
+    rgb list -> n -> (rgb option * n option) * ((rgb option * n option) * n
+    option) **)
+
+let lossy_m_obs_index p i =
+  (((xterm_to_rgb i p), (xterm_to_ansi i p)), (((color_to_rgb (Ansi256 i) p),
+    (color_to_xterm (Ansi256 i))), (color_to_ansi (Ansi256 i) p)))
+
+(** val lossy_m_obs_ansi :
+    rgb list -> n -> ((rgb option * rgb option) * rgb option) * ((rgb
+    option * n option) * n option) **)
+
+let lossy_m_obs_ansi p a =
+  ((((ansi_to_rgb a p), (palette_get p a)), (palette_index p a)),
+    (((color_to_rgb (Ansi a) p), (color_to_xterm (Ansi a))),
+    (color_to_ansi (Ansi a) p)))
+
+(** val lossy_m_obs_rgb :
+    rgb list -> rgb -> (rgb option * n option) * n option **)
+
+let lossy_m_obs_rgb p c =
+  (((color_to_rgb (Rgb c) p), (color_to_xterm (Rgb c))),
+    (color_to_ansi (Rgb c) p))
